@@ -47,7 +47,7 @@ impl Prop for C15 {
         Some(12)
     }
     fn rule(&self) -> &'static str {
-        "one run = one generated program (or non-terminating program, or option-validation sweep) whose exact cycle need n is measured with an unlimited timer; the timer is then fired at every m in {max(64,n-3)..n+3} and at sampled m in [64,n); one evaluation = one (program, m) execution. Non-trivial = the unlimited execution succeeded (or the program is non-terminating by construction) and at least one instant on each side of n that exists was exercised; distinct = digest of (source, inputs, instants)."
+        "one run (limits reach the VM alternately through ExecutionOptions::new and through the with_tracing builder) = one generated program (or non-terminating program, or option-validation sweep) whose exact cycle need n is measured with an unlimited timer; the timer is then fired at every m in {max(64,n-3)..n+3} and at sampled m in [64,n); one evaluation = one (program, m) execution. Non-trivial = the unlimited execution succeeded (or the program is non-terminating by construction) and at least one instant on each side of n that exists was exercised; distinct = digest of (source, inputs, instants)."
     }
     fn generate(&self, rng: &mut Rng, tier: Tier, _index: u64) -> Value {
         let k = rng.below(20);
@@ -150,6 +150,16 @@ impl Prop for C15 {
                                 if o.max_cycles() != max || o.enable_tracing() != tr {
                                     out.violate("C15/options/fields", format!("options do not carry the requested values: {:?}", o));
                                 }
+                                // the builder path keeps the limit
+                                let (e0, o2) = (o.expected_cycles(), o.with_tracing());
+                                if o2.max_cycles() != max || o2.expected_cycles() != e0 || !o2.enable_tracing() {
+                                    out.violate("C15/options/builder-loses-limit", format!("ExecutionOptions::new(Some({max}), {exp}, _).with_tracing() = {:?}", o2));
+                                }
+                                // and so does the prover's option set
+                                let po = miden_air::ProvingOptions::default().with_execution_options(o2);
+                                if po.execution_options().max_cycles() != max {
+                                    out.violate("C15/options/proving-options-lose-limit", format!("ProvingOptions::with_execution_options: {:?}", po.execution_options()));
+                                }
                             }
                             out.count(if must_refuse { "reach:options|refuse" } else { "reach:options|accept" });
                         }
@@ -178,7 +188,8 @@ impl Prop for C15 {
                 for m in sc["limits"].as_array().cloned().unwrap_or_default() {
                     let m = m.as_u64().unwrap_or(64) as u32;
                     let mut host = spec.host(vec![], hostcfg());
-                    let r = vm::run(&program, spec.stack(), &mut host, vm::options(Some(m), 64, false));
+                    let opts = if m % 2 == 1 { vm::options(Some(m), 64, false).with_tracing() } else { vm::options(Some(m), 64, false) };
+                    let r = vm::run(&program, spec.stack(), &mut host, opts);
                     out.evals += 1;
                     out.cycles += m as u64;
                     out.count("fault:timer-fired-nonterminating");
@@ -206,7 +217,7 @@ impl Prop for C15 {
                     }
                 };
                 let mut host_a = spec.host(vec![], hostcfg());
-                let a = vm::run(&program, spec.stack(), &mut host_a, ExecutionOptions::default());
+                let a = vm::run(&program, spec.stack(), &mut host_a, ExecutionOptions::default().with_tracing());
                 out.evals += 1;
                 let ta = match a {
                     Outcome::Ok(t) => t,
@@ -232,7 +243,10 @@ impl Prop for C15 {
                     }
                     let exp = sc["expected_cycles"].as_u64().unwrap_or(64).min(m).min(1 << 30) as u32;
                     let mut host_b = spec.host(vec![], hostcfg());
-                    let b = vm::run(&program, spec.stack(), &mut host_b, vm::options(Some(m as u32), exp, false));
+                    // every other instant goes through the builder path of the options
+                    // (tracing is on in every run of this scenario so that the host logs are comparable)
+                    let opts = if m % 2 == 1 { vm::options(Some(m as u32), exp, false).with_tracing() } else { vm::options(Some(m as u32), exp, true) };
+                    let b = vm::run(&program, spec.stack(), &mut host_b, opts);
                     out.evals += 1;
                     out.cycles += m.min(n);
                     obs.u64(m).str(&b.class()).u64(log_digest(&host_b.log));
